@@ -410,7 +410,20 @@ func visitInstr(fr *frame, instr ssa.Instruction) continuation {
 			// local
 			addr = fr.env[instr].(*value)
 		}
-		*addr = zero(mustDeref(instr.Type()))
+		at := mustDeref(instr.Type())
+		if rw := i.st.w.eng.Opts.ConstRewrite; len(rw) > 0 && instr.Comment == "makeslice" {
+			// make([]T, n) / make([]T, 0, n) with a constant n is compiled to new([n]T)
+			if arr, ok := at.Underlying().(*types.Array); ok {
+				for _, r := range rw {
+					if r.From == arr.Len() && strings.Contains(fr.fn.String(), r.Func) {
+						i.st.noteStub(fmt.Sprintf("constant %d in %s executed as %d (const_rewrite)", r.From, fr.fn.String(), r.To))
+						at = types.NewArray(arr.Elem(), r.To)
+						break
+					}
+				}
+			}
+		}
+		*addr = zero(at)
 
 	case *ssa.MakeSlice:
 		c := fr.concInt(fr.get(instr.Cap))
